@@ -611,7 +611,7 @@ func TestVerifC17(t *testing.T) {
 	}
 	defer os.RemoveAll(base)
 
-	n := run.N(1200, 40000)
+	n := run.N(1000, 40000)
 	const stream = "main"
 	tally := map[string]int{}
 	ncases := 0
